@@ -17,7 +17,7 @@
 From AK Require Import Base.Prelude Bytes.Text Bytes.FabHeader Bytes.BinFile Bytes.Word
   Reader.Select Reader.BoxRead Reader.Level Reader.ReadSpec Plotfile.Abstract Taste.CompleteProofs
   Writers.Chef Writers.ChefProofs Writers.Chk2plt Writers.Chk2pltProofs Writers.ScatterProofs Writers.Chk2pltLevelProofs
-  Plotfile.TextHeader Plotfile.HeaderSpec Taste.Taste Writers.ChkHeader Writers.ChkHeaderProofs Writers.Chk2pltTool Writers.Chk2pltToolProofs.
+  Plotfile.TextHeader Plotfile.HeaderSpec Taste.Taste Writers.ChkHeader Writers.ChkHeaderProofs Writers.Chk2pltTool Writers.Chk2pltToolProofs Writers.Colander Writers.ColanderSpec Writers.ColanderPipeline Writers.ColanderToolProofs Writers.Chk2pltPipeline Writers.Chk2pltFullProofs Writers.Chk2pltWellFormed.
 
 (* Ghost stripping keeps exactly the interior: for every ghost width >= 1 in
    each direction (they may differ), every component c and every interior cell
@@ -381,4 +381,209 @@ Proof.
       intros [|[|i]] Hi; [vm_compute; reflexivity | vm_compute; reflexivity | exfalso; cbn in Hi; lia]. }
   split; [exact Hwf|]. split; [reflexivity|]. split; [reflexivity|]. split; [exact Hlv|].
   apply C17_tool; [exact Hwf | reflexivity | reflexivity | reflexivity | exact Hlv].
+Qed.
+
+(* ... and the converted plotfile is GOOD - the hypothesis of the tool theorems of
+   colander, combine and chef and of the chain theorems (C05_tool, C06_tool,
+   C11_tool, C14_full_chain) - when in addition the printed floats are float
+   literals (wf_written), every level has a box and every converted box holds one
+   component per output field (counts_ok). *)
+Theorem C17_tool_output_good : forall frepr dx_row bounds species do_gradp do_ir floored y_start nspecies c,
+  wf_written frepr dx_row bounds (ac_h c) ->
+  length (ac_levels c) = Z.to_nat (ch_max_level (ac_h c) + 1) ->
+  (forall k al, nth_error (ac_levels c) k = Some al -> level_ok do_gradp do_ir floored y_start nspecies c k al) ->
+  counts_ok species do_gradp do_ir c ->
+  good (conv_pf frepr dx_row bounds species do_gradp do_ir c).
+Proof.
+  intros frepr dx_row bounds species dg di fl ys ns c Hw Hlen Hlv Hcnt.
+  exact (conv_pf_good frepr dx_row bounds species dg di fl ys ns c Hw Hlen Hlv Hcnt).
+Qed.
+Print Assumptions C17_tool_output_good.
+
+(* A conversion followed by a strain: what colander writes from the directory
+   chk2plt wrote is pf_disk of the pure strain of the pure conversion. *)
+Theorem C17_then_colander : forall whole to_int frepr dx_row bounds species do_gradp do_ir floored y_start nspecies
+    n_state n_gradp n_ir c vars limit lim d,
+  wf_chk whole to_int (ac_h c) -> wf_written frepr dx_row bounds (ac_h c) ->
+  chk_nfields_out n_state n_gradp n_ir do_gradp do_ir = blen (chk_fields species do_gradp do_ir) ->
+  length (ac_levels c) = Z.to_nat (ch_max_level (ac_h c) + 1) ->
+  (forall k al, nth_error (ac_levels c) k = Some al -> level_ok do_gradp do_ir floored y_start nspecies c k al) ->
+  counts_ok species do_gradp do_ir c ->
+  chk2plt_tool whole to_int frepr dx_row bounds species do_gradp do_ir floored y_start nspecies n_state n_gradp n_ir (achk_disk c) = Some d ->
+  eff_limit (ch_max_level (ac_h c)) limit = Some lim -> 0 <= lim ->
+  fst (resolve_vars (field_keys (chk_fields species do_gradp do_ir) []) vars) <> [] ->
+  colander vars limit d = Some (pf_disk (colander_spec vars lim (conv_pf frepr dx_row bounds species do_gradp do_ir c))).
+Proof.
+  intros whole to_int frepr dx_row bounds species dg di fl ys ns n1 n2 n3 c vars limit lim d
+         Hwf Hw Hn Hlen Hlv Hcnt Htool Heff Hlim Hvars.
+  exact (chk2plt_then_colander whole to_int frepr dx_row bounds species dg di fl ys ns n1 n2 n3 c vars limit lim d
+           Hwf Hw Hn Hlen Hlv Hcnt Htool Heff Hlim Hvars).
+Qed.
+Print Assumptions C17_then_colander.
+
+(* non-vacuity of C17_tool_output_good / C17_then_colander: the example checkpoint of C17_tool_example meets the two
+   further hypotheses, and straining its conversion to two fields, evaluated, agrees with the theorem *)
+Example C17_tool_output_good_example :
+  wf_written ex_frepr (fun _ => [bs "1.0"; bs "1.0"; bs "1.0"]) ex7_bounds (ac_h ex7_chk) /\
+  counts_ok [] false false ex7_chk /\
+  option_map (fun d => option_map (fun t => nth 2 t []) (pd_header d))
+    (match chk2plt_tool ex_whole ex_to_int ex_frepr (fun _ => [bs "1.0"; bs "1.0"; bs "1.0"]) ex7_bounds [] false false (fun _ => None) 0 0 7 3 0
+                        (achk_disk ex7_chk) with
+     | Some d => colander [bs "temp"; bs "density"] None d
+     | None => None end)
+  = Some (Some [bs "temp"]).
+Proof.
+  split.
+  - unfold wf_written. split; [cbn; lia|]. split; [reflexivity|]. split; [reflexivity|]. split; [reflexivity|].
+    split; [repeat constructor|]. split; [repeat constructor|].
+    intros lv Hlv. cbn [ex7_chk ac_h ex7_h ch_max_level] in Hlv. assert (lv = 0) by lia. subst lv.
+    split; [repeat constructor|]. split; [reflexivity|]. repeat constructor.
+  - split; [|vm_compute; reflexivity].
+    intros [|[|k]] al Hk; cbn in Hk; try discriminate Hk. injection Hk as <-.
+    split; [discriminate|].
+    intros [|[|i]] Hi; [vm_compute; reflexivity | vm_compute; reflexivity | exfalso; cbn in Hi; lia].
+Qed.
+
+(* "Converting a PeleLMeX checkpoint writes a 3D plotfile that validation accepts":
+   for every convertible abstract checkpoint (the hypotheses of C17_tool and
+   C17_tool_output_good together: Chk2pltPipeline.convertible) the conversion
+   succeeds and the validator accepts the directory written, for every admissible
+   level limit and every option set that does not reach the data check alone (box
+   coordinates are outside the model: oracle). *)
+Theorem C17_output_accepted : forall whole to_int frepr dx_row bounds species do_gradp do_ir floored y_start nspecies
+    n_state n_gradp n_ir close c o limit lim,
+  convertible whole to_int frepr dx_row bounds species do_gradp do_ir floored y_start nspecies n_state n_gradp n_ir c ->
+  eff_limit (ch_max_level (ac_h c)) limit = Some lim -> 0 <= lim ->
+  (t_data o && negb (t_headers o && t_shape o)) = false ->
+  exists d, chk2plt_tool whole to_int frepr dx_row bounds species do_gradp do_ir floored y_start nspecies n_state n_gradp n_ir (achk_disk c) = Some d /\
+            taste_good close o limit d = true.
+Proof.
+  intros whole to_int frepr dx_row bounds species dg di fl ys ns n1 n2 n3 close c o limit lim Hc Heff Hlim Ho.
+  exact (chk2plt_output_accepted whole to_int frepr dx_row bounds species dg di fl ys ns n1 n2 n3 close c o limit lim Hc Heff Hlim Ho).
+Qed.
+Print Assumptions C17_output_accepted.
+
+(* non-vacuity of `convertible` (C17_output_accepted, C14_chain_from_checkpoint) *)
+Example C17_convertible_example :
+  convertible ex_whole ex_to_int ex_frepr (fun _ => [bs "1.0"; bs "1.0"; bs "1.0"]) ex7_bounds [] false false (fun _ => None) 0 0 7 3 0 ex7_chk.
+Proof.
+  destruct C17_tool_example as (Hwf & Hn & Hg & Hlv & _).
+  destruct C17_tool_output_good_example as (Hw & Hcnt & _).
+  unfold convertible. split; [exact Hwf|]. split; [exact Hw|]. split; [exact Hn|]. split; [reflexivity|]. split; [exact Hlv|exact Hcnt].
+Qed.
+
+(* The conversion in EVERY mode - pressure gradient and / or species reaction rates
+   converted or not, flooring on or off -, ANY layout of each of the three data
+   subsets: when the state boxes are stored with g >= 1 ghost cells, the gradp /
+   I_R subsets are well-formed levels of their own on the boxes' interiors (read
+   through their own (file, offset) tables), and - with flooring - the table of
+   the rescaled species components (a floating-point result, numpy's) has for
+   every box as many components as there are species, each of the interior's
+   size, no per-box hypothesis is left: every box converts to its interior, with
+   the species components replaced by the table's when flooring, followed by the
+   gradient and the rate components (full_of); each converted box is a
+   well-formed FAB and the conclusions of C17_level_any_layout hold.
+   (glv / rlv = None: that subset is not converted; floored = None: no flooring;
+   all three None is C17_level_plain.) *)
+Theorem C17_level_full : forall g slv boxes glv rlv floored ys ns,
+  1 <= g -> wf_level slv = true -> length boxes = length (lv_fabs slv) ->
+  (forall i, (i < length (lv_fabs slv))%nat -> ghosted g (nth i (lv_fabs slv) dummy_fab) (nth i boxes ([], []))) ->
+  NoDup (map (fun nf : bytes * list nat => cell_name (fst nf)) (lv_files slv)) ->
+  (forall i, (i < length (lv_fabs slv))%nat ->
+     match floored with
+     | Some tbl => exists new, nth_error tbl i = Some new /\ Z.of_nat (length new) = ns /\
+                               Forall (fun c => blen c = 8 * interior_cells (nth i boxes ([], []))) new
+     | None => True end) ->
+  subset_ok slv boxes glv -> subset_ok slv boxes rlv ->
+  let n := length (lv_fabs slv) in
+  let comps := full_of g slv glv rlv floored ys in
+  let out := conv_lv (sub_cells glv) (sub_cells rlv) slv boxes comps in
+  convert_level boxes (lv_disk slv) (cells_or_nil slv) (sub_files glv) (sub_cells glv) (sub_files rlv) (sub_cells rlv)
+                (sub_on glv) (sub_on rlv) floored ys ns
+  = Some (map (fun name => (cell_name name, encode_file (file_fabs out (ids_of slv name)))) (np_unique (map fst (cells_or_nil slv))),
+          cells_or_nil out,
+          map (fun i => map comp_min (comps i)) (seq 0 n),
+          map (fun i => map comp_max (comps i)) (seq 0 n))
+  /\ wf_level out = true.
+Proof.
+  intros g slv boxes glv rlv floored ys ns Hg Hwf Hb Hgh Hn Hfl Hgl Hrl.
+  exact (convert_level_full g Hg slv Hwf boxes Hb Hgh Hn glv rlv floored ys ns Hfl Hgl Hrl).
+Qed.
+Print Assumptions C17_level_full.
+
+(* non-vacuity: the two ghosted boxes of ex_slv with a pressure-gradient subset (3 components per box, box 1 before
+   box 0 in ITS file), no reaction rates, and flooring with a one-species table replacing component 1: the hypotheses hold,
+   and each converted box is interior (component 1 replaced) ++ gradient *)
+Definition ex_floor : list (list bytes) := [[exw 77]; [exw 88]].
+Definition ex_glv : level :=
+  {| lv_fabs := [ {| fab_lo := [0; 0; 0]; fab_hi := [0; 0; 0]; fab_nc := 3; fab_data := exw 201 ++ exw 202 ++ exw 203 |};
+                  {| fab_lo := [1; 0; 0]; fab_hi := [1; 0; 0]; fab_nc := 3; fab_data := exw 211 ++ exw 212 ++ exw 213 |} ];
+     lv_files := [ (bs "gradp_D_00000", [1%nat; 0%nat]) ] |}.
+Example C17_level_full_example :
+  subset_ok ex_slv ex_boxes (Some ex_glv) /\ subset_ok ex_slv ex_boxes None /\
+  (forall i, (i < length (lv_fabs ex_slv))%nat ->
+     exists new, nth_error ex_floor i = Some new /\ Z.of_nat (length new) = 1 /\
+                 Forall (fun c => blen c = 8 * interior_cells (nth i ex_boxes ([], []))) new) /\
+  full_of 1 ex_slv (Some ex_glv) None (Some ex_floor) 1 0%nat = [exw 13; exw 77; exw 201; exw 202; exw 203] /\
+  full_of 1 ex_slv (Some ex_glv) None (Some ex_floor) 1 1%nat = [exw 113; exw 88; exw 211; exw 212; exw 213] /\
+  full_of 1 ex_slv (Some ex_glv) None None 0 0%nat = [exw 13; exw 40; exw 201; exw 202; exw 203].
+Proof.
+  split.
+  - unfold subset_ok. split; [vm_compute; reflexivity|]. split; [reflexivity|].
+    intros [|[|i]] Hi; [reflexivity | reflexivity | exfalso; cbn in Hi; lia].
+  - split; [exact I|]. split.
+    + intros [|[|i]] Hi; [| | exfalso; cbn in Hi; lia].
+      * exists [exw 77]. split; [reflexivity|]. split; [reflexivity|]. repeat constructor.
+      * exists [exw 88]. split; [reflexivity|]. split; [reflexivity|]. repeat constructor.
+    + split; [vm_compute; reflexivity|]. split; vm_compute; reflexivity.
+Qed.
+
+(* WELL-FORMED CHECKPOINTS ARE CONVERTIBLE.  An abstract checkpoint given by its
+   header record and, per level, a state level stored with g >= 1 ghost cells in
+   ANY file layout, the gradp / I_R subsets as levels of their own on the
+   interiors when they are converted (any layout each), and - with flooring - the
+   table of rescaled species components (Chk2pltWellFormed.wlevel_ok): with a
+   well-formed header whose printed floats are float literals and the component
+   counts announced by the checkpoint's level headers - holding for every FAB
+   (wcounts_ok) - adding up to the field list, it is `convertible`: nothing is
+   assumed about individual boxes any more.  Hence
+   (C17_output_accepted, C17_tool, C14_chain_from_checkpoint) the conversion
+   succeeds in every mode, writes pf_disk of the pure conversion - box i of level
+   k holding interior (species rescaled) ++ gradient ++ rates -, the validator
+   accepts it, and it is a valid input of every chain of the other writers. *)
+Theorem C17_wellformed_convertible : forall g ys ns whole to_int frepr dx_row bounds species do_gradp do_ir n_state n_gradp n_ir h wls,
+  1 <= g ->
+  wf_chk whole to_int h -> wf_written frepr dx_row bounds h ->
+  chk_nfields_out n_state n_gradp n_ir do_gradp do_ir = blen (chk_fields species do_gradp do_ir) ->
+  length wls = Z.to_nat (ch_max_level h + 1) ->
+  (forall k wl, nth_error wls k = Some wl ->
+     wlevel_ok g ns do_gradp do_ir (nth k (ch_boxes h) []) wl /\ wcounts_ok ys ns n_state n_gradp n_ir wl) ->
+  convertible whole to_int frepr dx_row bounds species do_gradp do_ir
+              (fun j => match nth_error wls j with Some w => wl_floor w | None => None end) ys ns n_state n_gradp n_ir
+              (achk_of g ys h wls).
+Proof.
+  intros g ys ns whole to_int frepr dx_row bounds species dg di n1 n2 n3 h wls Hg Hwf Hw Hn Hlen Hlv.
+  exact (wellformed_convertible_counts g ys ns whole to_int frepr dx_row bounds species dg di n1 n2 n3 h wls Hg Hwf Hw Hn Hlen Hlv).
+Qed.
+Print Assumptions C17_wellformed_convertible.
+
+(* non-vacuity: the state level of C17_tool_example (one ghost cell; no gradp, no I_R, no flooring) is a well-formed
+   level, and its converted boxes are the interiors *)
+Example C17_wellformed_example :
+  full_of 1 ex7_slv None None None 0 0%nat = plain_of 1 ex7_slv 0%nat /\
+  (forall k wl, nth_error [ {| wl_state := ex7_slv; wl_gradp := None; wl_ir := None; wl_floor := None |} ] k = Some wl ->
+     wlevel_ok 1 0 false false (nth k (ch_boxes ex7_h) []) wl /\ wcounts_ok 0 0 7 3 0 wl).
+Proof.
+  split; [vm_compute; reflexivity|].
+  intros [|[|k]] wl Hk; cbn in Hk; try discriminate Hk. injection Hk as <-.
+  split.
+  - unfold wlevel_ok. cbv zeta. cbn [wl_state wl_gradp wl_ir wl_floor].
+    split; [vm_compute; reflexivity|]. split; [reflexivity|]. split.
+    + intros [|[|i]] Hi; [| | exfalso; cbn in Hi; lia].
+      * exists 0, 0, 0, 0, 0, 0. cbn. repeat split; lia.
+      * exists 1, 0, 0, 1, 0, 0. cbn. repeat split; lia.
+    + split; [vm_compute; repeat constructor; intros []|].
+      split; [reflexivity|]. split; [reflexivity|]. split; [exact I|]. split; [exact I|]. intros i _. exact I.
+  - unfold wcounts_ok. cbn [wl_state wl_gradp wl_ir wl_floor ex7_slv lv_fabs].
+    split; [discriminate|]. split; [repeat constructor|]. split; [exact I|]. split; exact I.
 Qed.
